@@ -79,9 +79,12 @@ impl Check for C20 {
         // two racing writers can leave one copy in each candidate shard
         // (documented); the bounds hold in that state too
         let dup = tape.draw(3) == 0;
+        // the process does not own the cached files: setting the access bit by
+        // hand (futimens) fails with EPERM on every lookup -- the bounds hold
+        let foreign = tape.draw(4) == 0;
         let key = KeySpec { name: "thekey".into(), hash: kh, sec: ks };
         let sizes: Vec<usize> = if maintain { vec![0, 10, 100] } else { SIZES.to_vec() };
-        let desc = format!("front={} depth={} sharded_levels={:?} shards={} checker={:?} op={:?} hit_level={} lower_copy={} maintain={} auto_sync={} key_in_secondary={} duplicate={} {}", ["plain", "sharded", "stack", "readonly"][front as usize], depth, kinds, nshards, checker, op, hit_level, also_lower_copy, maintain, auto_sync, in_secondary, dup, kn.describe()) + &format!(" fail_first_publication={} ({}) warm_handle={}", fail_first_pub, fail_errno, warm);
+        let desc = format!("front={} depth={} sharded_levels={:?} shards={} checker={:?} op={:?} hit_level={} lower_copy={} maintain={} auto_sync={} key_in_secondary={} duplicate={} foreign_owner={} {}", ["plain", "sharded", "stack", "readonly"][front as usize], depth, kinds, nshards, checker, op, hit_level, also_lower_copy, maintain, auto_sync, in_secondary, dup, foreign, kn.describe()) + &format!(" fail_first_publication={} ({}) warm_handle={}", fail_first_pub, fail_errno, warm);
         let mut observations: Vec<Obs> = Vec::new();
         let mut total_steps = 0;
         let mut total_ns = 0;
@@ -134,9 +137,12 @@ impl Check for C20 {
                 let mut f = File::create(&src).expect("source");
                 f.write_all(&make_value("thekey", 2, 20)).expect("write");
             }
-            if fail_first_pub {
-                let mut armed = true;
+            if fail_first_pub || foreign {
+                let mut armed = fail_first_pub;
                 w.sim.lock().injector = Some(Box::new(move |info, _t| {
+                    if foreign && info.lib && info.kind == K::Futimens {
+                        return Some(libc::EPERM);
+                    }
                     if armed && info.lib && matches!(info.kind, K::Rename | K::Link) {
                         armed = false;
                         Some(fail_errno)
